@@ -211,6 +211,23 @@ pub fn check(mut ctx: Ctx, replay: Option<J>) -> ! {
     tool_error(&format!("counter-design was not rejected by IndexesAgree: {}", cd.error_text));
   }
   ctx.cov("counter_design_rejected", json!(true));
+  // --- 1b. the invariants are inductive for EVERY alphabet of models over small pools of identifiers, namespaces and
+  // names (Apa_Workspace.tla, Apalache): base case and step. A counterexample is an error of the specification (exit 2);
+  // if Apalache cannot be run the evidence says so and the check goes on (TLC's results stand on their own).
+  {
+    let spec = ctx.verif.join("spec");
+    let out = ctx.verif.join("work/C17/apalache");
+    let (base, t0) = crate::tlc::apalache(&spec, &out, "Apa_Workspace", &["--cinit=ConstInit", "--init=Init", "--inv=IndInv", "--length=0"], 600);
+    let (step, t1) = if base == Some(true) { crate::tlc::apalache(&spec, &out, "Apa_Workspace", &["--cinit=ConstInit", "--init=IndInit", "--inv=IndInv", "--length=1"], 900) } else { (None, String::new()) };
+    if base == Some(false) || step == Some(false) {
+      tool_error(&format!("Apalache found the invariants of Workspace not inductive: {}", if base == Some(false) { t0 } else { t1 }.lines().rev().take(12).collect::<Vec<_>>().join(" | ")));
+    }
+    if base == Some(true) && step == Some(true) {
+      ctx.cov("apalache_inductive_invariant", json!("Inv and AddableIff are inductive for every alphabet of models over 3 identifiers x 3 namespaces x 3 names x builds/fails (Init => IndInv; IndInv and Next => IndInv')"));
+    } else {
+      ctx.cov("apalache_inductive_invariant", json!(format!("not established in this run: {} {}", t0.chars().take(200).collect::<String>(), t1.chars().take(200).collect::<String>())));
+    }
+  }
   // --- 2. edge tour
   let gen_cfg = if quick { "Gen_C17.cfg" } else { "Gen_C17Big.cfg" };
   let gen = tlc.run(Run::new("Gen_C17", gen_cfg).workers(1).timeout(900));
